@@ -363,6 +363,52 @@ def specAccept (chain : List Level) (n : Names) : Bool := chain.all (levelAccept
 def validatePerCert (chain : List Level) (n : Names) : Verdict :=
   firstBad (fun l => validate (New [l]) n) chain
 
+/-! ### where the engine is consulted (source-derived, stage `paths`)
+
+  The table below is what `harness/cmd/c05_paths` re-derives from the Go source with go/ast on
+  every run (the driver prints the table, the check diffs it with the source). -/
+
+/-- one call of interest inside a function of package `authority`, in source order -/
+inductive Step where
+  | validate (checked : Bool)   -- `<x>.constraintsEngine.ValidateCertificate(…)`
+  | gate (checked : Bool)       -- `<x>.isAllowedToSignX509Certificate(…)`
+  | casCreate                   -- `<x>.x509CAService.CreateCertificate(…)`
+  | casRenew                    -- `<x>.x509CAService.RenewCertificate(…)`
+  deriving Repr, DecidableEq
+
+/-- `checked`: the call sits in `if err := …; err != nil { … }` and every branch of that body
+    ends in a `return` -/
+def issuePaths : List (String × List Step) :=
+  [ ("GetTLSCertificate", [.validate true, .casCreate]),
+    ("isAllowedToSignX509Certificate", [.validate true]),
+    ("renewContext", [.validate true, .casRenew]),
+    ("signX509", [.gate true, .casCreate]) ]
+
+/-- every call of `SignWithContext` / `RenewContext` / `Rekey` outside authority/tls.go -/
+def frontEnds : List String :=
+  [ "acme/order.go:Finalize>SignWithContext", "api/rekey.go:Rekey>Rekey", "api/renew.go:Renew>RenewContext",
+    "api/sign.go:Sign>SignWithContext", "api/ssh.go:SSHSign>SignWithContext", "ca/client.go:Sign>SignWithContext",
+    "scep/authority.go:SignCSR>SignWithContext" ]
+
+/-- every function that calls `x509util.CreateCertificate` / `x509.CreateCertificate` -/
+def certCreators : List String :=
+  [ "cas/cloudcas/cloudcas.go:signIntermediateCA", "cas/softcas/softcas.go:createCertificate" ]
+
+def Step.isCas : Step → Bool
+  | .casCreate => true
+  | .casRenew => true
+  | _ => false
+
+def Step.isCheck : Step → Bool
+  | .validate true => true
+  | .gate true => true
+  | _ => false
+
+/-- every CAS call of the list is preceded by a checked validation (directly or through the gate) -/
+def guarded : List Step → Bool
+  | [] => true
+  | st :: rest => if st.isCheck then true else (!st.isCas && guarded rest)
+
 /-! ### model of the name part of `crypto/x509` `Certificate.isValid` (the independent verifier)
 
   Used only to predict the *class* of a refusal by `x509.Verify` in the end-to-end stage: for
